@@ -5,6 +5,7 @@ type Alphabet struct {
 	Name      string
 	Terminals []byte
 	Eps       bool
+	End       bool // parser.End() as a leaf
 	Unary     []Kind
 	Binary    []Kind
 	Ternary   []Kind
@@ -34,6 +35,15 @@ var Core1 = Alphabet{
 	Unary:   []Kind{Opt},
 	Binary:  []Kind{Any, Seq},
 	Ternary: []Kind{Any, Seq},
+}
+
+// Rep is the alphabet of repetitions and one-element sequences over ambiguous elements: the combinators that
+// emit a result from a PREFIX of their scratch buffer (a one-child result, a shorter path) while further
+// alternatives of the same element are still to be tried.
+var Rep = Alphabet{
+	Name: "rep", Terminals: []byte{'a', 'b'},
+	Unary:  []Kind{Seq, Many, Many1, Opt},
+	Binary: []Kind{Any, Seq, SepBy1, SeqTry},
 }
 
 // With returns a copy of the alphabet with extra unary operators.
@@ -67,6 +77,9 @@ func (sp *Space) leaves() []*Expr {
 	}
 	if sp.Alpha.Eps {
 		l = append(l, Epsilon())
+	}
+	if sp.Alpha.End {
+		l = append(l, &Expr{K: End})
 	}
 	for i := 0; i < sp.NNT; i++ {
 		l = append(l, Ref(i))
